@@ -19,7 +19,8 @@ RULE = ("(structure) online-generated histories heavy in enable / modify / pulse
 ASSUMPTIONS = ["EOM bandwidth >= channel bandwidth", "the emulator Hamiltonian read at every ns is propagated exactly (1e-9); the emulator ODE solution itself is compared at 5e-3 (edge interpolation of square pulses)"]
 TIERS = {"quick": dict(cases=900, shards=8, case_timeout=240, shard_timeout=1200),
          "thorough": dict(cases=14000, shards=16, case_timeout=240, shard_timeout=3400)}
-FLOORS = {"quick": {"setpoints_checked": 800, "eom_pulses_checked": 1200, "buffers_checked": 500, "physics_compared": 60},
+FLOORS = {"quick": {"setpoints_checked": 800, "eom_pulses_checked": 1200, "buffers_checked": 500, "physics_compared": 60,
+                    "open_blocks_after_setpoint_change": 100, "physics_pulses_with_post_phase_shift": 60},
           "thorough": {"setpoints_checked": 12000}}
 WEIGHTS = {"enable_eom_mode": 5, "modify_eom_setpoint": 3, "add_eom_pulse": 10, "delay": 5, "disable_eom_mode": 3, "add": 5,
            "declare_channel": 3, "align": 0.6, "target": 1, "phase_shift": 0.6, "sample": 0, "str": 0, "to_abstract_repr": 0,
@@ -56,8 +57,9 @@ def physics(ctx, rng, k):
     if rng.random() < 0.5:  # an idle channel that is (much) longer than the EOM channel
         seq.declare_channel("idle", "raman_global")
         seq.delay(gen.pick(rng, [1000, 3000, 5000]), "idle")
-    req = []  # requested phases of the real pulses, in order
+    req = []  # phases the real pulses must carry in the twin, in order: requested phase + the post-phase-shifts so far
     ops = []
+    cum = 0.0  # sum of the post_phase_shifts requested so far (virtual-Z: added to every later pulse)
     if rng.random() < 0.5:
         ph = gen.pick(rng, [0.0, 1.0])
         seq.add(pulser.Pulse.ConstantPulse(gen.pick(rng, [52, 100]), 2.0, 0.0, ph), "c")
@@ -71,10 +73,14 @@ def physics(ctx, rng, k):
         x = rng.random()
         if x < 0.6:
             ph = gen.pick(rng, [0.0, 0.0, 1.3, 2.5, -1.0])
+            pps = gen.pick(rng, [0.0, 0.0, 0.7, math.pi, -1.9])
             seq.add_eom_pulse("c", gen.pick(rng, [40, 60, 100, 124]), ph, correct_phase_drift=True,
-                              protocol=gen.pick(rng, ["min-delay", "no-delay"]))
-            req.append(ph)
-            ops.append(("pulse", ph))
+                              protocol=gen.pick(rng, ["min-delay", "no-delay"]), **({"post_phase_shift": pps} if pps else {}))
+            req.append(ph + cum)
+            cum += pps
+            if pps:
+                ctx.count("physics_pulses_with_post_phase_shift")
+            ops.append(("pulse", ph, pps))
         elif x < 0.85:
             d = gen.pick(rng, [100, 200, 400])
             seq.delay(d, "c")
@@ -87,7 +93,7 @@ def physics(ctx, rng, k):
     seq.disable_eom_mode("c", correct_phase_drift=True)
     ph = gen.pick(rng, [0.0, 2.0])
     seq.add(pulser.Pulse.ConstantPulse(gen.pick(rng, [52, 100]), 3.0, 0.0, ph), "c")
-    req.append(ph)
+    req.append(ph + cum)
     ops.append(("disable+add", ph))
     ctx.case = {"physics": {"bw": bw, "ops": ops, "eom": repr(eom)[:300]}}
     from vmon.snap import pulse_info, snapshot
